@@ -45,6 +45,7 @@ ASSUMPTIONS = [
     "delimiters '\"', '\\n', '\\r' are not CSV-legal (compared model-vs-code, excluded from the round-trip predicate)",
     "0-row data sets are outside the quantifier (1..1e4 rows): read_scsv raises ValueError on them (counted, compared)",
 ]
+OPTIMIZED_TWIN = True   # the implementation-side search is repeated under `python -O` (validation must not live in assert / __debug__)
 TRUSTED = ["oracle tables for float()/repr()/complex()/str(complex) computed by the running CPython",
            "the request serialisation of harness/props/c16.py and lean/Driver/Ops/Scsv.lean"]
 
